@@ -516,7 +516,14 @@ def intersection(*args, **kwargs):
             fibers = args
 
             def __iter__(self):
-                start_pos = [None] * (len(self.fibers) - 1)
+                #
+                # Start every follower's search at its beginning: with
+                # no start position the first lookup leaves the
+                # follower's saved position untouched, and a stale one
+                # (from an earlier shortcut lookup by the caller) would
+                # be picked up below as the start of the next search
+                #
+                start_pos = [0] * (len(self.fibers) - 1)
 
                 is_collecting = Metrics.isCollecting()
                 leader_traced = False
